@@ -4,16 +4,16 @@
  "file": "map.c", "function": "mapput", "also_functions": ["mapget", "mapinit", "keyindex", "keyequal", "hash", "mapkey"],
  "properties": {"C16": "contract", "C19": "safety"},
  "mode": "harness",
- "replace_calls": {"hash": "uf_hash"},
+ "replace_calls": {"hash": "uf_hash", "memcmp": "verif_memcmp2"},
  "kind": "bounded",
  "bound": "initial capacity in {4,8}; 4 put/overwrite operations, each followed by a get of an arbitrary key; keys of 0..2 arbitrary bytes; hash() replaced by an arbitrary (uninterpreted) function of the key bytes",
  "cflags": ["-DNOPS=4", "-DVERIF_OWN_XMALLOC"],
  "variants": {"cap4": ["-DV_CAP=4"], "cap8": ["-DV_CAP=8"]},
  "canary_variant": "cap4",
- "unwindset": ["memcmp.0:3", "keyindex.0:9", "mapinit.0:9", "mapput.0:9", "mapput.1:5", "model_get.0:5", "model_distinct.0:5", "model_distinct.1:5"],
+ "unwindset": ["keyindex.0:9", "mapinit.0:9", "mapput.0:9", "mapput.1:5", "model_get.0:5", "model_distinct.0:5", "model_distinct.1:5"],
  "timeout": 300, "mem_gb": 8,
  "tiers": {"thorough": {"cflags": ["-DNOPS=6", "-DVERIF_OWN_XMALLOC"], "timeout": 3000,
-            "unwindset": ["memcmp.0:3", "keyindex.0:17", "mapinit.0:9", "mapput.0:17", "mapput.1:9", "model_get.0:7", "model_distinct.0:7", "model_distinct.1:7"],
+            "unwindset": ["keyindex.0:17", "mapinit.0:9", "mapput.0:17", "mapput.1:9", "model_get.0:7", "model_distinct.0:7", "model_distinct.1:7"],
             "bound": "initial capacity in {4,8}; 6 put/overwrite operations (table grows up to 16 slots), each followed by a get of an arbitrary key; keys of 0..2 arbitrary bytes; hash() replaced by an arbitrary (uninterpreted) function of the key bytes"}},
  "expects": ["assertion_verif", "assertion_repo", "pointer_dereference"],
  "assumes": ["xreallocarray does not fail (stubs/base.c)",
@@ -82,6 +82,20 @@ xreallocarray(void *buf, size_t n, size_t m)
  * undecidable in 170 s).  What is used about the real hash(): it is a function of the len bytes only (MAP.hash: it
  * assigns nothing and reads exactly those bytes).
  */
+/* memcmp for n <= 2 without CBMC's byte loop (replaces the library model; the native replay uses libc) */
+int
+verif_memcmp2(const void *a, const void *b, size_t n)
+{
+	const unsigned char *p = a, *q = b;
+
+	__CPROVER_assert(n <= 2, "keys of at most 2 bytes");
+	if (n >= 1 && p[0] != q[0])
+		return p[0] < q[0] ? -1 : 1;
+	if (n >= 2 && p[1] != q[1])
+		return p[1] < q[1] ? -1 : 1;
+	return 0;
+}
+
 #define UFMAX (2 * NOPS)
 static struct { size_t len; unsigned char b[2]; unsigned long val; } g_uf[UFMAX];
 static unsigned g_ufn;
